@@ -19,6 +19,7 @@
 (*                     id, RemoveFromList(client:<c>, id) for ids whose record is gone          *)
 (*   internal/command/handler_http_domain_create.go + app/server/http_domain_repository_adapter *)
 (*     (p in HandlerProcs)  Exists(index:<name>) -> CreateMapping -> UpdateMapping (expiry)     *)
+(*                     -> on a failed update (TTLRollback): DeleteMapping, the create fails      *)
 (*   internal/httpservice/modules/domainproxy/mapping_lookup.go  lookupMapping                  *)
 (*     extractDomain(host) -> repository (status / expiry check) -> DomainRegistry.LookupByHost *)
 (*     -> CloudControl.GetPortMappingByDomain (+ cache into the registry)                       *)
@@ -36,6 +37,9 @@
 (*   crossSourceClaim      the same name is claimed in the repository and as a legacy mapping   *)
 (*   staleRegistryCache    a legacy mapping deleted on another node stays in this registry      *)
 (*   caseVariantClaim      a second spelling (letter case) of an owned name is claimed          *)
+(*   unstoredExpiry        a create through the command handler is acknowledged although its     *)
+(*                         expiry update failed: the expires_at of the response is never stored  *)
+(*                         (TTLRollback = FALSE; repaired by fix C19-3 = TTLRollback = TRUE)      *)
 (* Deviations that the present code does not have; they are modelled so that TLC rejects them   *)
 (* (invariants OnlyHolderUnlocks / LockHeld / LookupPure) and so that the generator can emit     *)
 (* schedules that follow such code (jobs "legacy:dev:*", Deviate # {}):                          *)
@@ -49,6 +53,20 @@
 (*                  check "name free?" and insert in two critical sections: two parallel legacy   *)
 (*                  claims of one name are both acknowledged (no storage gate lies between the    *)
 (*                  two halves, so this one is driven by parallel free-running Register rounds)   *)
+(* Round 3 - fault handling, fall-through and write-on-read deviations (each has a Domain_show_*.cfg):  *)
+(*   nxErrRelease   CreateMapping's shared "release the index" rollback also runs when the index SetNX     *)
+(*                  returned an ERROR (nothing was claimed): it deletes the OWNER's index entry            *)
+(*   nxTakenRelease the same rollback on the "name is taken" outcome of the SetNX                          *)
+(*   expiredFallsThrough / inactiveFallsThrough   lookupMapping treats an expired / inactive repository   *)
+(*                  owner as "name unknown to the repository" and goes on to the legacy sources: a legacy  *)
+(*                  mapping of the same name (another client's) serves the request (legacyShadowsOwner)    *)
+(*   errFallsThrough  a storage ERROR of the repository lookup is treated like "not found" (same effect)  *)
+(*   legacyStatusIgnored  the status / revoked / expiry checks of the registry and cloud-control sources   *)
+(*                  are skipped: an inactive legacy mapping routes (routeInactiveLegacy)                   *)
+(*   listErrPrunes  GetMappingsByClientID treats a storage ERROR of a record read like "record gone" and   *)
+(*                  drops the id from the client's list (listDropsLive)                                    *)
+(*   updateHeals    UpdateMapping re-creates a missing index entry (SetNX) after its write - the update    *)
+(*                  twin of listHeals: racing the owner's delete it leaves an index entry for ever         *)
 EXTENDS Naturals, Sequences, FiniteSets, TLC, Json
 
 CONSTANTS ProcsC1, ProcsC2,  \* API-call processes acting with the proven identity of client c1 / c2
@@ -72,6 +90,14 @@ CONSTANTS ProcsC1, ProcsC2,  \* API-call processes acting with the proven identi
           OnlyList,          \* processes that only issue List calls (GetMappingsByClientID)
           CreateFaults,      \* TRUE: the one failing storage operation may also be the pre-check, the id counter, the index
                              \*       SetNX (an ERROR, not "taken") or the handler's expiry update of a create
+          ReadFaults,        \* TRUE: the one failing storage operation may also be a READ-path operation: any operation of a
+                             \*       listing (GetList, Get, RemoveFromList), of a host lookup (Get index, Get record) or of a
+                             \*       stand-alone UpdateMapping (Get, Set)
+          TTLRollback,       \* TRUE: model of the repaired adapter.CreateHTTPDomainMapping - when the expiry update of a create
+                             \*       fails the mapping is deleted again (DeleteMapping) and the create FAILS; FALSE: the failure is
+                             \*       only logged and the create is acknowledged with an expires_at that was never stored
+                             \*       (deviation unstoredExpiry)
+          LegStatus,         \* statuses a legacy mapping may be created with: subset of {"active", "inactive", "expired", "revoked"}
           DelFaults,         \* TRUE: the one failing storage operation may be ANY operation of the repaired DeleteMapping
                              \*       (reads, the claim, the list removal, the release), not only its two deletes
           Emit
@@ -99,7 +125,7 @@ Ids == 1..MaxId
 
 NoRec == [c |-> "-", n |-> "-", k |-> "-", st |-> "none"]
 Has(r) == r.st # "none"
-NoLeg == [id |-> 0, c |-> "-"]
+NoLeg == [id |-> 0, c |-> "-", st |-> "-"]
 NoCur == [op |-> "none", n |-> "-", k |-> "-", fb |-> "-", id |-> 0, st |-> "-", res |-> "-", ids |-> {}]
 
 \* Host spellings (finite table) and the normalisation the code implements:
@@ -119,7 +145,7 @@ KeyOf(sp, n) == CASE sp \in {"plain", "port"} -> n
                   [] OTHER -> "none"
 Denotes(sp, n) == IF sp \in {"v6", "v6port"} THEN "-" ELSE n      \* the DNS name a spelling stands for
 FbKey(sp, n) == IF sp \in {"plain", "port"} THEN n ELSE "-"         \* key of the two legacy sources
-NoSnap == [dead |-> {}, inact |-> {}, legdead |-> {}]
+NoSnap == [dead |-> {}, inact |-> {}, legdead |-> {}, own |-> {}]
 
 Init == /\ nextId = PreN
         /\ index = [k \in Keys |-> IF Pre /\ k = FirstName THEN 1 ELSE 0]
@@ -187,7 +213,7 @@ CallList(p) ==       \* the client lists its own mappings
 CallLookup(q, n, sp) ==
   /\ q \in LookProcs /\ done[q] < MaxLook /\ sp \in Spell
   /\ Call(q, [NoCur EXCEPT !.op = "Lookup", !.n = Denotes(sp, n), !.k = KeyOf(sp, n), !.fb = FbKey(sp, n)], "L_idx")
-  /\ snap' = [snap EXCEPT ![q] = [dead |-> delok \cup failc, inact |-> inact, legdead |-> legdead]]
+  /\ snap' = [snap EXCEPT ![q] = [dead |-> delok \cup failc, inact |-> inact, legdead |-> legdead, own |-> okc \ deld]]
   /\ Log(CallSt(q, "Call", "Lookup", "-", n, 0, "-", sp))
 
 \* the call of p returns
@@ -222,7 +248,8 @@ CNx(p) ==    \* SetNX(index:<name>, id)
           /\ Goto(p, "C_rec") /\ Log(St(p, "ClaimIndex", FALSE, "-"))
      ELSE /\ index' = index /\ dev' = dev
           /\ failc' = failc \cup {cur[p].id}
-          /\ Return(p) /\ Log(St(p, "ClaimIndex", FALSE, "fail"))
+          /\ IF "nxTakenRelease" \in Deviate THEN Goto(p, "C_rb_idx") /\ Log(St(p, "ClaimIndex", FALSE, "-"))   \* deviation
+                                              ELSE Return(p) /\ Log(St(p, "ClaimIndex", FALSE, "fail"))
   /\ UNCHANGED <<nextId, rec, clist, dlock, cur, tmp, fault, okc, deld, delok, inact, meta, snap, bad>> /\ U_leg
 
 CreateOk(p) == okc' = okc \cup {cur[p].id}
@@ -234,13 +261,39 @@ CreateOk(p) == okc' = okc \cup {cur[p].id}
 CFault(p) ==
   /\ CreateFaults /\ fault > 0 /\ fault' = fault - 1
   /\ pc[p] \in {"C_pre", "C_id", "C_nx", "C_uget", "C_uset"}
+  /\ ~(pc[p] = "C_nx" /\ "nxErrRelease" \in Deviate)
+  /\ ~(pc[p] \in {"C_uget", "C_uset"} /\ TTLRollback)
   /\ Return(p)
+  /\ dev' = IF pc[p] \in {"C_uget", "C_uset"} THEN dev \cup {"unstoredExpiry"} ELSE dev
   /\ CASE pc[p] = "C_pre" -> okc' = okc /\ failc' = failc /\ Log(St(p, "ChkIndex", TRUE, "fail"))
        [] pc[p] = "C_id" -> okc' = okc /\ failc' = failc /\ Log(St(p, "NextId", TRUE, "fail"))
        [] pc[p] = "C_nx" -> okc' = okc /\ failc' = failc \cup {cur[p].id} /\ Log(St(p, "ClaimIndex", TRUE, "fail"))
        [] pc[p] = "C_uget" -> CreateOk(p) /\ failc' = failc /\ Log(St(p, "UpdGet", TRUE, "ok"))
        [] pc[p] = "C_uset" -> CreateOk(p) /\ failc' = failc /\ Log(St(p, "UpdSet", TRUE, "ok"))
-  /\ UNCHANGED <<cur, tmp, deld, delok, inact, meta, snap, bad, dev>> /\ U_store /\ U_leg
+  /\ UNCHANGED <<cur, tmp, deld, delok, inact, meta, snap, bad>> /\ U_store /\ U_leg
+
+\* TTLRollback: the expiry update failed - the adapter deletes the mapping again (the DeleteMapping steps below run as
+\* part of this create call, which then FAILS) instead of acknowledging an expiry time that is not stored
+CFaultTTL(p) ==
+  /\ CreateFaults /\ TTLRollback /\ fault > 0 /\ fault' = fault - 1
+  /\ pc[p] \in {"C_uget", "C_uset"}
+  /\ Goto(p, "D_get")
+  /\ UNCHANGED <<cur, tmp>> /\ U_store /\ U_leg /\ U_ghost
+  /\ Log(St(p, IF pc[p] = "C_uget" THEN "UpdGet" ELSE "UpdSet", TRUE, "-"))
+
+\* result / ghost bookkeeping of the DeleteMapping steps when they run as the rollback of a create (TTLRollback)
+InRb(p) == cur[p].op = "Create"
+DRes(p, r) == IF InRb(p) THEN "fail" ELSE r
+DFailc(p) == IF InRb(p) THEN failc \cup {cur[p].id} ELSE failc
+
+\* deviation nxErrRelease: the SetNX ERROR path runs the index rollback (Delete(index:<name>), unconditional)
+CFaultNx(p) ==
+  /\ CreateFaults /\ fault > 0 /\ fault' = fault - 1
+  /\ pc[p] = "C_nx" /\ "nxErrRelease" \in Deviate
+  /\ Goto(p, "C_rb_idx")
+  /\ failc' = failc \cup {cur[p].id}
+  /\ UNCHANGED <<cur, tmp, okc, deld, delok, inact, meta, snap, bad, dev>> /\ U_store /\ U_leg
+  /\ Log(St(p, "ClaimIndex", TRUE, "-"))
 
 CRec(p) ==   \* Set(mapping:<id>); a failure rolls the index back
   /\ pc[p] = "C_rec"
@@ -285,6 +338,8 @@ CUGet(p) ==
   /\ IF Has(rec[cur[p].id])
      THEN /\ tmp' = [tmp EXCEPT ![p] = rec[cur[p].id]] /\ Goto(p, "C_uset") /\ okc' = okc
           /\ Log(St(p, "UpdGet", FALSE, "-"))
+     ELSE IF TTLRollback                    \* UpdateMapping reports "not found": rolled back like any other failure
+     THEN /\ tmp' = tmp /\ Goto(p, "D_get") /\ okc' = okc /\ Log(St(p, "UpdGet", FALSE, "-"))
      ELSE /\ tmp' = tmp /\ Return(p) /\ CreateOk(p) /\ Log(St(p, "UpdGet", FALSE, "ok"))
   /\ UNCHANGED <<cur, fault, failc, deld, delok, inact, meta, snap, bad, dev>> /\ U_store /\ U_leg
 
@@ -300,11 +355,11 @@ CUSet(p) ==
 DGet(p) ==   \* GetMapping + owner check
   /\ pc[p] = "D_get"
   /\ LET r == rec[cur[p].id] IN
-     IF ~Has(r) THEN Return(p) /\ tmp' = tmp /\ Log(St(p, "DelGet", FALSE, "ok"))                 \* already gone: success
-     ELSE IF r.c # Cl(p) THEN Return(p) /\ tmp' = tmp /\ Log(St(p, "DelGet", FALSE, "fail"))      \* forbidden
-     ELSE /\ tmp' = [tmp EXCEPT ![p] = r]
+     IF ~Has(r) THEN Return(p) /\ tmp' = tmp /\ failc' = DFailc(p) /\ Log(St(p, "DelGet", FALSE, DRes(p, "ok")))   \* already gone: success
+     ELSE IF r.c # Cl(p) THEN Return(p) /\ tmp' = tmp /\ failc' = DFailc(p) /\ Log(St(p, "DelGet", FALSE, "fail"))      \* forbidden
+     ELSE /\ tmp' = [tmp EXCEPT ![p] = r] /\ failc' = failc
           /\ Goto(p, IF Fix THEN "D_lock" ELSE "D_idx") /\ Log(St(p, "DelGet", FALSE, "-"))
-  /\ UNCHANGED <<cur, fault>> /\ U_store /\ U_leg /\ U_ghost
+  /\ UNCHANGED <<cur, fault, okc, deld, delok, inact, meta, snap, bad, dev>> /\ U_store /\ U_leg
 
 DIdx(p) ==   \* Delete(index:<name>)  (unrepaired code: unconditional)
   /\ pc[p] = "D_idx"
@@ -335,7 +390,7 @@ DRec(p) ==   \* Delete(mapping:<id>)
 \*   Get(mapping) / Get(index) under the claim: the call reports the error and releases the claim
 \*   RemoveFromList: ignored by the code;  Delete(lock): ignored, the marker stays until its TTL runs out
 DFault(p) ==
-  /\ Fix /\ DelFaults /\ fault > 0 /\ fault' = fault - 1
+  /\ Fix /\ DelFaults /\ fault > 0 /\ fault' = fault - 1 /\ ~InRb(p)
   /\ pc[p] \in {"D_get", "D_lock", "D_get2", "D_iget", "D_list", "D_unlock"}
   /\ CASE pc[p] = "D_get" -> Return(p) /\ cur' = cur /\ delok' = delok /\ Log(St(p, "DelGet", TRUE, "fail"))
        [] pc[p] = "D_lock" -> Return(p) /\ cur' = cur /\ delok' = delok /\ Log(St(p, "DelLock", TRUE, "fail"))
@@ -359,10 +414,10 @@ DLock(p) ==  \* SetNX(lock:<id>)
   /\ pc[p] = "D_lock"
   /\ IF dlock[cur[p].id] # "none"
      THEN /\ dlock' = dlock                    \* Conflict: another delete of this mapping is running; the marker is left alone
-          /\ IF "conflictUnlock" \in Deviate THEN Goto(p, "D_cunlock") /\ Log(St(p, "DelLock", FALSE, "-"))
-                                              ELSE Return(p) /\ Log(St(p, "DelLock", FALSE, "fail"))
-     ELSE Goto(p, "D_get2") /\ dlock' = [dlock EXCEPT ![cur[p].id] = p] /\ Log(St(p, "DelLock", FALSE, "-"))
-  /\ UNCHANGED <<nextId, index, rec, clist, cur, tmp, fault>> /\ U_leg /\ U_ghost
+          /\ IF "conflictUnlock" \in Deviate THEN Goto(p, "D_cunlock") /\ failc' = failc /\ Log(St(p, "DelLock", FALSE, "-"))
+                                              ELSE Return(p) /\ failc' = DFailc(p) /\ Log(St(p, "DelLock", FALSE, "fail"))
+     ELSE Goto(p, "D_get2") /\ dlock' = [dlock EXCEPT ![cur[p].id] = p] /\ failc' = failc /\ Log(St(p, "DelLock", FALSE, "-"))
+  /\ UNCHANGED <<nextId, index, rec, clist, cur, tmp, fault, okc, deld, delok, inact, meta, snap, bad, dev>> /\ U_leg
 
 \* deviation foreignUnlock: the loser of the claim deletes the marker (Delete(lock:<id>)) before it reports Conflict
 DCUnlock(p) ==
@@ -390,9 +445,10 @@ DUnlock(p) == \* Delete(lock:<id>)
   /\ dlock' = [dlock EXCEPT ![cur[p].id] = "none"]
   /\ dev' = IF dlock[cur[p].id] \notin {"none", p} THEN dev \cup {"foreignUnlock"} ELSE dev
   /\ Return(p)
-  /\ delok' = IF cur[p].res = "ok" /\ cur[p].id \in deld THEN delok \cup {cur[p].id} ELSE delok
-  /\ UNCHANGED <<nextId, index, rec, clist, cur, tmp, fault, okc, failc, deld, inact, meta, snap, bad>> /\ U_leg
-  /\ Log(St(p, "DelUnlock", FALSE, cur[p].res))
+  /\ delok' = IF ~InRb(p) /\ cur[p].res = "ok" /\ cur[p].id \in deld THEN delok \cup {cur[p].id} ELSE delok
+  /\ failc' = DFailc(p)
+  /\ UNCHANGED <<nextId, index, rec, clist, cur, tmp, fault, okc, deld, inact, meta, snap, bad>> /\ U_leg
+  /\ Log(St(p, "DelUnlock", FALSE, DRes(p, cur[p].res)))
 
 \* repaired code only: CreateMapping's rollback after a failed AppendToList runs the same guarded cascade
 RLock(p) ==
@@ -460,9 +516,28 @@ USet(p) ==
   /\ rec' = [rec EXCEPT ![cur[p].id] = [tmp[p] EXCEPT !.st = cur[p].st]]
   /\ dev' = IF ~Has(rec[cur[p].id]) THEN dev \cup {"resurrect"} ELSE dev
   /\ inact' = inact \cup {cur[p].id}
-  /\ Return(p)
+  /\ IF "updateHeals" \in Deviate THEN Goto(p, "U_heal") /\ Log(St(p, "UpdSet", FALSE, "-"))
+                                    ELSE Return(p) /\ Log(St(p, "UpdSet", FALSE, "ok"))
   /\ UNCHANGED <<nextId, index, clist, dlock, cur, tmp, fault, okc, failc, deld, delok, meta, snap, bad>> /\ U_leg
-  /\ Log(St(p, "UpdSet", FALSE, "ok"))
+
+\* deviation updateWrites: SetNX(index:<name>, id) after the update of a record - an update claims no name
+UHeal(p) ==
+  /\ pc[p] = "U_heal"
+  /\ LET k == tmp[p].k IN
+     IF index[k] = 0
+     THEN index' = [index EXCEPT ![k] = cur[p].id] /\ dev' = dev \cup {"updateWrites"}
+     ELSE index' = index /\ dev' = dev
+  /\ Return(p)
+  /\ UNCHANGED <<nextId, rec, clist, dlock, cur, tmp, fault, okc, failc, deld, delok, inact, meta, snap, bad>> /\ U_leg
+  /\ Log(St(p, "UpdHeal", FALSE, "ok"))
+
+\* ReadFaults: Get / Set of a stand-alone UpdateMapping fails: the call reports the error, the record is unchanged
+UFault(p) ==
+  /\ ReadFaults /\ fault > 0 /\ fault' = fault - 1
+  /\ pc[p] \in {"U_get", "U_set"}
+  /\ Return(p)
+  /\ UNCHANGED <<cur, tmp>> /\ U_store /\ U_leg /\ U_ghost
+  /\ Log(St(p, IF pc[p] = "U_get" THEN "UpdGet" ELSE "UpdSet", TRUE, "fail"))
 
 \* ---- GetMappingsByClientID --------------------------------------------------------------------
 \* reads only, except that ids whose record is gone are dropped from the client's list
@@ -488,9 +563,25 @@ GRec(p) ==    \* Get(mapping:<id>)
 GPrune(p) ==  \* RemoveFromList(client:<c>, id) of a dangling id
   /\ pc[p] = "G_prune"
   /\ clist' = [clist EXCEPT ![Cl(p)] = @ \ {cur[p].id}]
+  /\ dev' = IF cur[p].id \in Live /\ Has(rec[cur[p].id]) THEN dev \cup {"listDropsLive"} ELSE dev
   /\ ListNext(p, cur[p].ids \ {cur[p].id})
-  /\ UNCHANGED <<nextId, index, rec, dlock, tmp, fault>> /\ U_leg /\ U_ghost
+  /\ UNCHANGED <<nextId, index, rec, dlock, tmp, fault, okc, failc, deld, delok, inact, meta, snap, bad>> /\ U_leg
   /\ Log(St(p, "ListPrune", FALSE, IF cur[p].ids \ {cur[p].id} = {} THEN "ok" ELSE "-"))
+
+\* ReadFaults: a storage operation of the listing fails
+\*   GetList(client:<c>), Get(mapping:<id>) with an ERROR (not "not found"): the call reports the error, nothing is written
+\*   RemoveFromList of a dangling id: ignored, the listing goes on
+\* deviation listErrPrunes: the failed record read is taken for "record gone": the id is dropped from the client's list
+GFault(p) ==
+  /\ ReadFaults /\ fault > 0 /\ fault' = fault - 1
+  /\ pc[p] \in {"G_list", "G_rec", "G_prune"}
+  /\ LET rest == cur[p].ids \ {cur[p].id} IN
+     CASE pc[p] = "G_list" -> Return(p) /\ cur' = cur /\ Log(St(p, "ListGet", TRUE, "fail"))
+       [] pc[p] = "G_rec" -> IF "listErrPrunes" \in Deviate
+                             THEN Goto(p, "G_prune") /\ cur' = cur /\ Log(St(p, "ListRec", TRUE, "-"))
+                             ELSE Return(p) /\ cur' = [cur EXCEPT ![p].ids = {}] /\ Log(St(p, "ListRec", TRUE, "fail"))
+       [] pc[p] = "G_prune" -> ListNext(p, rest) /\ Log(St(p, "ListPrune", TRUE, IF rest = {} THEN "ok" ELSE "-"))
+  /\ UNCHANGED <<tmp>> /\ U_store /\ U_leg /\ U_ghost
 
 \* deviation listWrites: SetNX(index:<name>, id) for a listed active record - a listing must not claim names
 GHeal(p) ==
@@ -506,45 +597,72 @@ GHeal(p) ==
 \* ---- lookupMapping ----------------------------------------------------------------------------
 \* fallbacks 2 and 3 use no storage operation of the repository: they happen in the same step as
 \* the repository miss that leads to them
-Fallback(q, n) ==
+\* f: the storage operation of this step was made to fail (errFallsThrough only)
+\* A legacy mapping that is not active / revoked / expired is found and REJECTED (no further source is asked);
+\* a cloud-control hit is cached into the registry only after it passed these checks.
+LRet(q) == Return(q) /\ snap' = [snap EXCEPT ![q] = NoSnap]       \* the lookup returns: its snapshot ghost is dropped
+Shadowed(q, n) == \E i \in snap[q].own : meta[i].n = n /\ i \notin deld      \* a repository owner known before the lookup began and still undeleted
+LegRoutes(x) == x.st = "active" \/ "legacyStatusIgnored" \in Deviate
+LegBad(q, n, x) == (IF Shadowed(q, n) THEN {"legacyShadowsOwner"} ELSE {})
+                   \cup (IF x.st # "active" THEN {"routeInactiveLegacy"} ELSE {})
+Fallback(q, n, f) ==
   IF n = "-"
   THEN /\ reg' = reg /\ bad' = bad
-       /\ Log(St(q, pc[q], FALSE, "reject"))
+       /\ Log(St(q, pc[q], f, "reject"))
   ELSE IF reg[n] # NoLeg
   THEN /\ reg' = reg
-       /\ bad' = IF reg[n].id \in snap[q].legdead THEN bad \cup {"routeDeadLegacy"} ELSE bad
-       /\ Log(St(q, pc[q], FALSE, "leg:" \o ToString(reg[n].id)))
+       /\ IF LegRoutes(reg[n])
+          THEN /\ bad' = bad \cup LegBad(q, n, reg[n]) \cup (IF reg[n].id \in snap[q].legdead THEN {"routeDeadLegacy"} ELSE {})
+               /\ Log(St(q, pc[q], f, "leg:" \o ToString(reg[n].id)))
+          ELSE bad' = bad /\ Log(St(q, pc[q], f, "reject"))
   ELSE IF cc[n] # NoLeg
-  THEN /\ reg' = [reg EXCEPT ![n] = cc[n]]                  \* cached into the local registry
-       /\ bad' = bad
-       /\ Log(St(q, pc[q], FALSE, "leg:" \o ToString(cc[n].id)))
+  THEN IF LegRoutes(cc[n])
+       THEN /\ reg' = [reg EXCEPT ![n] = cc[n]]                  \* cached into the local registry
+            /\ bad' = bad \cup LegBad(q, n, cc[n])
+            /\ Log(St(q, pc[q], f, "leg:" \o ToString(cc[n].id)))
+       ELSE reg' = reg /\ bad' = bad /\ Log(St(q, pc[q], f, "reject"))
   ELSE /\ reg' = reg /\ bad' = bad
-       /\ Log(St(q, pc[q], FALSE, "reject"))
+       /\ Log(St(q, pc[q], f, "reject"))
 
 LIdx(q) ==   \* Get(index:<name>)
   /\ pc[q] = "L_idx"
   /\ LET k == cur[q].k IN
      IF k \notin Keys \/ index[k] = 0
-     THEN Return(q) /\ Fallback(q, cur[q].fb) /\ cur' = cur
-     ELSE /\ cur' = [cur EXCEPT ![q].id = index[k]] /\ Goto(q, "L_rec")
+     THEN LRet(q) /\ Fallback(q, cur[q].fb, FALSE) /\ cur' = cur
+     ELSE /\ cur' = [cur EXCEPT ![q].id = index[k]] /\ Goto(q, "L_rec") /\ snap' = snap
           /\ reg' = reg /\ bad' = bad /\ Log(St(q, "L_idx", FALSE, "-"))
-  /\ UNCHANGED <<tmp, fault, cc, nleg, legdead, lpend, legown, okc, failc, deld, delok, inact, meta, snap, dev>> /\ U_store
+  /\ UNCHANGED <<tmp, fault, cc, nleg, legdead, lpend, legown, okc, failc, deld, delok, inact, meta, dev>> /\ U_store
 
-LRec(q) ==   \* Get(mapping:<id>), status / expiry check
+FallsThrough(st) == \/ st = "expired" /\ "expiredFallsThrough" \in Deviate
+                    \/ st = "inactive" /\ "inactiveFallsThrough" \in Deviate
+
+LRec(q) ==   \* Get(mapping:<id>), status / expiry check: a repository owner that is not active is REJECTED, the legacy
+             \* sources are asked only when the repository does not know the name
   /\ pc[q] = "L_rec"
   /\ LET i == cur[q].id
          r == rec[i]
          n == cur[q].n IN
      IF ~Has(r) /\ "lazyClean" \in Deviate
-       THEN Goto(q, "L_clean") /\ reg' = reg /\ bad' = bad /\ Log(St(q, "L_rec", FALSE, "-"))
-     ELSE IF ~Has(r) THEN Return(q) /\ Fallback(q, cur[q].fb)
-     ELSE IF r.st # "active" THEN /\ Return(q) /\ reg' = reg /\ bad' = bad /\ Log(St(q, "L_rec", FALSE, "reject"))
-     ELSE /\ Return(q) /\ reg' = reg
+       THEN Goto(q, "L_clean") /\ snap' = snap /\ reg' = reg /\ bad' = bad /\ Log(St(q, "L_rec", FALSE, "-"))
+     ELSE IF ~Has(r) THEN LRet(q) /\ Fallback(q, cur[q].fb, FALSE)
+     ELSE IF r.st # "active" /\ FallsThrough(r.st) THEN LRet(q) /\ Fallback(q, cur[q].fb, FALSE)      \* deviation
+     ELSE IF r.st # "active" THEN /\ LRet(q) /\ reg' = reg /\ bad' = bad /\ Log(St(q, "L_rec", FALSE, "reject"))
+     ELSE /\ LRet(q) /\ reg' = reg
           /\ bad' = bad \cup (IF i \in snap[q].dead THEN {"routeDead"} ELSE {})
                         \cup (IF i \in snap[q].inact THEN {"routeInactive"} ELSE {})
                         \cup (IF r.n # n \/ meta[i].c # r.c THEN {"routeForeign"} ELSE {})
           /\ Log(St(q, "L_rec", FALSE, "route:" \o ToString(i)))
-  /\ UNCHANGED <<cur, tmp, fault, cc, nleg, legdead, lpend, legown, okc, failc, deld, delok, inact, meta, snap, dev>> /\ U_store
+  /\ UNCHANGED <<cur, tmp, fault, cc, nleg, legdead, lpend, legown, okc, failc, deld, delok, inact, meta, dev>> /\ U_store
+
+\* ReadFaults: Get(index) / Get(mapping) of the lookup fails with an ERROR: the request is rejected (500), the legacy
+\* sources are NOT asked (the repository may well own the name).  Deviation errFallsThrough: treated like "not found".
+LFault(q) ==
+  /\ ReadFaults /\ fault > 0 /\ fault' = fault - 1
+  /\ pc[q] \in {"L_idx", "L_rec"}
+  /\ LRet(q)
+  /\ IF "errFallsThrough" \in Deviate THEN Fallback(q, cur[q].fb, TRUE)
+                                      ELSE reg' = reg /\ bad' = bad /\ Log(St(q, pc[q], TRUE, "reject"))
+  /\ UNCHANGED <<cur, tmp, cc, nleg, legdead, lpend, legown, okc, failc, deld, delok, inact, meta, dev>> /\ U_store
 
 \* deviation lookupWrites: the lookup removes the "stale" index entry (Delete(index:<name>)) - a lookup must
 \* leave the store unchanged (LookupPure)
@@ -552,8 +670,8 @@ LClean(q) ==
   /\ pc[q] = "L_clean"
   /\ index' = [index EXCEPT ![cur[q].k] = 0]
   /\ dev' = dev \cup {"lookupWrites"}
-  /\ Return(q) /\ Fallback(q, cur[q].fb)
-  /\ UNCHANGED <<nextId, rec, clist, dlock, cur, tmp, fault, cc, nleg, legdead, lpend, legown, okc, failc, deld, delok, inact, meta, snap>>
+  /\ LRet(q) /\ Fallback(q, cur[q].fb, FALSE)
+  /\ UNCHANGED <<nextId, rec, clist, dlock, cur, tmp, fault, cc, nleg, legdead, lpend, legown, okc, failc, deld, delok, inact, meta>>
 
 \* ---- legacy HTTP mappings (management API; atomic) -------------------------------------------
 \* here = TRUE: the call is served by the proxy node (its registry is updated as well)
@@ -565,23 +683,23 @@ LegGuard(n, here) ==
   /\ reg[n] = NoLeg \/ ~here                               \* IsSubdomainAvailable of the serving node's registry
   /\ cc[n] = NoLeg                                         \* (the administrator does not book a name twice across nodes)
 
-LegEffect(c, n, here) ==
+LegEffect(c, n, here, st) ==
   /\ nleg' = nleg + 1
-  /\ cc' = [cc EXCEPT ![n] = [id |-> nleg + 1, c |-> c]]
-  /\ reg' = IF here THEN [reg EXCEPT ![n] = [id |-> nleg + 1, c |-> c]] ELSE reg
+  /\ cc' = [cc EXCEPT ![n] = [id |-> nleg + 1, c |-> c, st |-> st]]
+  /\ reg' = IF here THEN [reg EXCEPT ![n] = [id |-> nleg + 1, c |-> c, st |-> st]] ELSE reg
   /\ legown' = legown \cup {[id |-> nleg + 1, n |-> n]}
   /\ dev' = dev \cup (IF \E i \in Live : meta[i].n = n THEN {"crossSourceClaim"} ELSE {})
                 \cup (IF ~here /\ reg[n] # NoLeg THEN {"staleRegistryCache"} ELSE {})
                 \cup (IF \E x \in legown : x.n = n THEN {"doubleRegister"} ELSE {})
   /\ UNCHANGED <<pc, cur, tmp, done, fault, legdead, okc, failc, deld, delok, inact, meta, snap, bad>> /\ U_store
-  /\ Log(CallSt("adm", "LegCreate", "LegCreate", c, n, nleg + 1, IF here THEN "here" ELSE "other", "-"))
+  /\ Log(CallSt("adm", "LegCreate", "LegCreate", c, n, nleg + 1, IF here THEN "here" ELSE "other", st))
 
-LegCreate(c, n, here) ==
-  /\ "splitRegister" \notin Deviate
-  /\ LegGuard(n, here) /\ LegEffect(c, n, here) /\ lpend' = lpend
+LegCreate(c, n, here, st) ==
+  /\ "splitRegister" \notin Deviate /\ st \in LegStatus
+  /\ LegGuard(n, here) /\ LegEffect(c, n, here, st) /\ lpend' = lpend
 
 LegCheck(c, n, here) ==
-  /\ "splitRegister" \in Deviate
+  /\ "splitRegister" \in Deviate /\ "active" \in LegStatus
   /\ LegGuard(n, here) /\ [c |-> c, n |-> n, here |-> here] \notin lpend
   /\ lpend' = lpend \cup {[c |-> c, n |-> n, here |-> here]}
   /\ UNCHANGED <<reg, cc, nleg, legdead, legown, pc, cur, tmp, done, fault, okc, failc, deld, delok, inact, meta, snap, bad, dev, hist>> /\ U_store
@@ -589,7 +707,7 @@ LegCheck(c, n, here) ==
 LegInsert(x) ==
   /\ x \in lpend /\ (Serial => AllIdle)
   /\ lpend' = lpend \ {x}
-  /\ LegEffect(x.c, x.n, x.here)
+  /\ LegEffect(x.c, x.n, x.here, "active")
 
 LegDelete(n, here) ==
   /\ cc[n] # NoLeg /\ (Serial => AllIdle)
@@ -604,16 +722,16 @@ LegDelete(n, here) ==
 Next == \/ \E p \in CProcs : \/ \E n \in Names, sp \in Spell : CallCreate(p, n, sp)
                              \/ \E i \in Ids : CallDelete(p, i)
                              \/ \E i \in Ids, s \in {"inactive", "expired"} : CallUpdate(p, i, s)
-                             \/ CallList(p) \/ GList(p) \/ GRec(p) \/ GPrune(p) \/ GHeal(p) \/ CFault(p)
+                             \/ CallList(p) \/ GList(p) \/ GRec(p) \/ GPrune(p) \/ GHeal(p) \/ GFault(p) \/ CFault(p) \/ CFaultNx(p) \/ CFaultTTL(p)
                              \/ CPre(p) \/ CId(p) \/ CNx(p) \/ CRec(p) \/ CList(p) \/ CRbRec(p) \/ CRbIdx(p)
                              \/ CUGet(p) \/ CUSet(p)
                              \/ DGet(p) \/ DIdx(p) \/ DRec(p) \/ DList(p)
                              \/ DFault(p) \/ DLock(p) \/ DCUnlock(p) \/ DGet2(p) \/ DIGet(p) \/ DUnlock(p)
                              \/ RLock(p) \/ RGet(p) \/ RIGet(p) \/ RIdx(p) \/ RRec(p) \/ RList(p) \/ RUnlock(p)
-                             \/ UGet(p) \/ USet(p)
+                             \/ UGet(p) \/ USet(p) \/ UHeal(p) \/ UFault(p)
         \/ \E q \in LookProcs : \/ \E n \in Names, sp \in Spell : CallLookup(q, n, sp)
-                                \/ LIdx(q) \/ LRec(q) \/ LClean(q)
-        \/ \E c \in Clients, n \in Names, h \in BOOLEAN : LegCreate(c, n, h) \/ LegCheck(c, n, h)
+                                \/ LIdx(q) \/ LRec(q) \/ LClean(q) \/ LFault(q)
+        \/ \E c \in Clients, n \in Names, h \in BOOLEAN : (\E st \in LegStatus : LegCreate(c, n, h, st)) \/ LegCheck(c, n, h)
         \/ \E x \in lpend : LegInsert(x)
         \/ \E n \in Names, h \in BOOLEAN : LegDelete(n, h)
 Spec == Init /\ [][Next]_vars
@@ -641,10 +759,19 @@ InCascade(p) == Fix /\ pc[p] \in {"D_get2", "D_iget", "D_idx", "D_rec", "D_list"
 LockHeld == \A p \in CProcs : InCascade(p) => dlock[cur[p].id] = p
 OnlyHolderUnlocks == "foreignUnlock" \notin dev
 
+\* (2b) a legacy mapping never serves a request for a name that has a repository owner (known before the lookup began,
+\*      no delete of it begun) - whatever that owner's status; NOT excused by the cross-source known finding
+NoShadow == "legacyShadowsOwner" \notin bad
+\* (2c) a legacy mapping that is inactive / revoked / expired does not route
+LegacyInactiveRejects == "routeInactiveLegacy" \notin bad
+
 \* (3c) a lookup leaves the store unchanged
 LookupPure == "lookupWrites" \notin dev
-\* (3d) a listing claims nothing
-ListPure == "listWrites" \notin dev
+\* (3d) a listing claims nothing and drops no live mapping from its owner's list; an update claims nothing
+ListPure == dev \cap {"listWrites", "listDropsLive"} = {}
+UpdateClaimsNothing == "updateWrites" \notin dev
+\* (6) an acknowledged create has stored the expiry time its response acknowledges (else the mapping outlives it for ever)
+ExpiryStored == "unstoredExpiry" \notin dev
 
 \* (4) quiescent store: no index entry without its record (name unclaimable for ever), every live
 \*     mapping is reachable through the index and listed for its owner
@@ -659,6 +786,6 @@ Claimable == Quiet => \A i \in delok : index[meta[i].k] # i
 \* deviations that are recorded as known findings / repaired by Fix: one of them does not hide other routes
 Excused == dev \cap {"crossSourceClaim", "staleRegistryCache"} # {}
 OneOwnerX == OneOwner \/ Excused
-RouteOKX == RouteOK \/ Excused
+RouteOKX == (bad \ {"legacyShadowsOwner", "routeInactiveLegacy"} = {}) \/ Excused
 NoIndexTheft == dev \cap {"foreignIndexDelete", "rollbackForeignIndex", "caseVariantClaim"} = {}
 =============================================================================
